@@ -415,6 +415,73 @@ func vxC10Run(c *vxC10Case, k *vstats.Case) error {
 			}
 		}
 		k.Class("shuffled picks checked")
+
+		// history: a node leaves while the keyspace metadata cannot be read (control connection down, schema
+		// table unreadable): the policy has no placement to offer then, but what it offers must be taken from
+		// the ring as it is now - the owner of the range first, the node that left never; once the schema
+		// is readable again (KeyspaceChanged) the placement is Cassandra's for the new ring
+		if len(hosts) >= 2 {
+			readable := true
+			hp := TokenAwareHostPolicy(RoundRobinHostPolicy()).(*tokenAwareHostPolicy)
+			hp.getKeyspaceName = func() string { return "ks" }
+			hp.getKeyspaceMetadata = func(string) (*KeyspaceMetadata, error) {
+				if !readable {
+					return nil, fmt.Errorf("schema unreadable")
+				}
+				return ks, nil
+			}
+			hp.logger = nopLogger{}
+			hp.SetPartitioner(vxPartNames[c.Part])
+			hp.AddHosts(hosts)
+			vi := (c.RF + len(c.DCs) + len(ring)) % len(hosts)
+			victim := hosts[vi]
+			var ring2 []cqlspec.RingEntry
+			for _, e := range ring {
+				if e.Node != vxNodeName(vi) {
+					ring2 = append(ring2, e)
+				}
+			}
+			readable = false
+			if msg, p := vxCatch(func() { hp.RemoveHost(victim) }); p {
+				return fmt.Errorf("RemoveHost while the schema is unreadable panicked: %s", msg)
+			}
+			for r := 0; r < vxRanks; r++ {
+				key := []byte(vxTokenString(c.Part, r))
+				q.RoutingKey(key)
+				o, ok := cqlspec.Owner(ring2, int64(r))
+				it := hp.Pick(q)
+				for i := 0; i <= len(hosts); i++ {
+					sh := it()
+					if sh == nil {
+						break
+					}
+					if sh.Info() == victim {
+						return fmt.Errorf("node %s left while the schema was unreadable; the pick for key %q still offers it (position %d)", victim.hostId, key, i)
+					}
+					if i == 0 && ok && sh.Info() != byName[o.Node] {
+						return fmt.Errorf("node %s left while the schema was unreadable; the pick for key %q starts with %s, the range now belongs to %s", victim.hostId, key, sh.Info().hostId, o.Node)
+					}
+				}
+			}
+			k.Class("a node left while the schema was unreadable")
+			if !c.NTS {
+				readable = true
+				hp.KeyspaceChanged(KeyspaceUpdateEvent{Keyspace: "ks"})
+				meta := hp.getMetadataReadOnly()
+				for r := 0; r < vxRanks && meta != nil && len(ring2) > 0; r++ {
+					tok := tr.partitioner.ParseString(vxTokenString(c.Part, r))
+					var got []*HostInfo
+					if ht := meta.replicas["ks"].replicasFor(tok); ht != nil {
+						got = ht.hosts
+					} else {
+						continue
+					}
+					if want := cqlspec.SimpleReplicas(ring2, c.RF, int64(r)); !cqlspec.SameSet(vxHostNames(got), want) {
+						return fmt.Errorf("after node %s left and the schema was read again: replicas of rank %d are %v, Cassandra places it on %v", victim.hostId, r, vxHostNames(got), want)
+					}
+				}
+			}
+		}
 	}
 	return known
 }
